@@ -29,6 +29,7 @@ func c04Main(args []string) error {
 	sched := c.fs.Int("sched", 0, "run every history under this many option schedules (options re-drawn at every open)")
 	bigfree := c.fs.Bool("bigfree", false, "prepend one history whose free list exceeds 65535 entries")
 	backups := c.fs.Bool("backups", false, "hot backups through open readers, with write transactions committed between the chunks of the copy")
+	surgery := c.fs.Bool("surgery", false, "run the CLI repair commands on the file directly after commits")
 	readersAlways := c.fs.Bool("readers", false, "every history holds read transactions open across writer events")
 	c.fs.Parse(args)
 	w, done := openOut(c.out)
@@ -75,6 +76,10 @@ func c04Main(args []string) error {
 			reopen: cr.chance(1, 2), malformed: cr.chance(1, 2), moves: cr.chance(2, 3)}
 		if *readersAlways || *backups {
 			cfg.readers = true
+		}
+		if *surgery {
+			cfg.surgery = true
+			cfg.readers = false
 		}
 		if *backups {
 			cfg.backups = true
